@@ -688,7 +688,7 @@ Theorem translation_nonpos : forall T l tr st s e, eval_translation T l tr st s 
 Proof.
   intros T l tr st s e H. unfold eval_translation in H.
   destruct (translate_start T (extract l s) _) as [got|]; [|discriminate]. injection H as <-.
-  cbn [score]. apply zq_neg_len_nonpos.
+  cbv zeta. cbn [score]. apply zq_neg_len_nonpos.
 Qed.
 
 Theorem rare_codons_nonpos : forall fr mf l s e, eval_rare_codons fr mf l s = Some e -> (score e <= 0)%Q.
@@ -859,27 +859,35 @@ Qed.
 
 (* ------------------------------------------------------------------ EnforceTranslation *)
 Definition assume_of (st : start_policy) : bool := match st with StartNone => false | _ => true end.
+(* the first codon is one of the start codons the user declared *)
+Definition decl_of (st : start_policy) (c : dna) : bool :=
+  match st with StartCodons cs => dna_mem c cs | _ => false end.
 Definition tbad (p : ascii * option ascii) : bool :=
   match snd p with Some want => negb (Ascii.eqb (fst p) want) | None => true end.
-Definition gT (T : gtable) (tr : astr) (assume : bool) (i : nat) (c : dna) : option Q :=
-  match (if (Nat.eqb i 0 && (assume && dna_mem c (gt_starts T)))%bool
+Definition gT (T : gtable) (tr : astr) (st : start_policy) (i : nat) (c : dna) : option Q :=
+  match (if (Nat.eqb i 0 && (assume_of st && dna_mem c (gt_starts T)))%bool
          then Some "M"%char else codon_aa T c) with
   | None => None
-  | Some a => Some (if tbad (a, nth_error tr i) then zq (-1) else 0%Q)
+  | Some a => Some (if tbad ((if (Nat.eqb i 0 && decl_of st c)%bool then "M"%char else a), nth_error tr i)
+                    then zq (-1) else 0%Q)
   end.
-Definition trans_score (T : gtable) (x : dna) (tr : astr) (assume : bool) : option Q :=
-  match translate_start T x assume with
+Definition trans_score (T : gtable) (x : dna) (tr : astr) (st : start_policy) : option Q :=
+  match translate_start T x (assume_of st) with
   | None => None
-  | Some got =>
+  | Some got0 =>
+      let got := match got0 with
+                 | _ :: rest => if decl_of st (firstn 3 x) then "M"%char :: rest else got0
+                 | [] => got0
+                 end in
       Some (zq (- zlen (indices_where tbad
                  (combine got (map (fun i => nth_error tr i) (List.seq 0 (List.length got)))) 0)))
   end.
 
 Lemma eval_translation_score : forall T l tr st s,
-  option_map score (evaluate (STranslation T l tr st) s) = trans_score T (extract l s) tr (assume_of st).
+  option_map score (evaluate (STranslation T l tr st) s) = trans_score T (extract l s) tr st.
 Proof.
   intros T l tr st s. cbn [evaluate]. unfold eval_translation, trans_score.
-  destruct st; cbn [assume_of];
+  destruct st; cbn [assume_of decl_of];
   (match goal with |- context [translate_start ?a ?b ?c] => destruct (translate_start a b c) end);
   reflexivity.
 Qed.
@@ -889,8 +897,8 @@ Definition oq_rel (oq ox : option Q) : Prop :=
 Lemma ev_rel_score : forall oe ox, oq_rel (option_map score oe) ox -> ev_rel oe ox.
 Proof. intros [e|] [x|] H; exact H. Qed.
 
-Lemma trans_tail_aux : forall T tr assume L k i,
-  match mapM (codon_aa T) L, osum (gT T tr assume) (S k) L with
+Lemma trans_tail_aux : forall T tr st L k i,
+  match mapM (codon_aa T) L, osum (gT T tr st) (S k) L with
   | Some got, Some x =>
       (zq (- zlen (indices_where tbad
              (combine got (map (fun j => nth_error tr j) (List.seq (S k) (List.length got)))) i)) == x)%Q
@@ -898,16 +906,16 @@ Lemma trans_tail_aux : forall T tr assume L k i,
   | _, _ => False
   end.
 Proof.
-  intros T tr assume L. induction L as [|c L IH]; intros k i.
+  intros T tr st L. induction L as [|c L IH]; intros k i.
   - cbn [mapM osum List.length List.seq map combine indices_where]. reflexivity.
   - cbn [mapM osum]. specialize (IH (S k) (i + 1)).
-    change (gT T tr assume (S k) c) with
+    change (gT T tr st (S k) c) with
       (match codon_aa T c with
        | None => None
        | Some a => Some (if tbad (a, nth_error tr (S k)) then zq (-1) else 0%Q)
        end).
     destruct (codon_aa T c) as [a|]; [|exact I].
-    destruct (mapM (codon_aa T) L) as [got|]; destruct (osum (gT T tr assume) (S (S k)) L) as [x|];
+    destruct (mapM (codon_aa T) L) as [got|]; destruct (osum (gT T tr st) (S (S k)) L) as [x|];
       try contradiction; try exact I.
     cbn [List.length List.seq map combine indices_where].
     destruct (tbad (a, nth_error tr (S k))).
@@ -915,38 +923,38 @@ Proof.
     + rewrite IH. ring.
 Qed.
 
-Lemma bridge_trans_aux : forall T tr assume a b c x',
-  oq_rel (trans_score T (a :: b :: c :: x') tr assume)
-         (osum (gT T tr assume) 0 (codons (a :: b :: c :: x'))).
+Lemma bridge_trans_aux : forall T tr st a b c x',
+  oq_rel (trans_score T (a :: b :: c :: x') tr st)
+         (osum (gT T tr st) 0 (codons (a :: b :: c :: x'))).
 Proof.
-  intros T tr assume a b c x'. unfold trans_score, translate_start. cbn [firstn skipn].
+  intros T tr st a b c x'. unfold trans_score, translate_start. cbn [firstn skipn].
   rewrite codons_cons3. cbn [osum].
-  change (gT T tr assume 0 [a; b; c]) with
-    (match (if (assume && dna_mem [a; b; c] (gt_starts T))%bool
+  change (gT T tr st 0 [a; b; c]) with
+    (match (if (assume_of st && dna_mem [a; b; c] (gt_starts T))%bool
             then Some "M"%char else codon_aa T [a; b; c]) with
      | None => None
-     | Some a0 => Some (if tbad (a0, nth_error tr 0) then zq (-1) else 0%Q)
+     | Some a0 => Some (if tbad ((if decl_of st [a; b; c] then "M"%char else a0), nth_error tr 0)
+                        then zq (-1) else 0%Q)
      end).
-  pose proof (trans_tail_aux T tr assume (codons x') 0 (0 + 1)) as H.
+  pose proof (trans_tail_aux T tr st (codons x') 0 (0 + 1)) as H.
   unfold oq_rel.
-  destruct (assume && dna_mem [a; b; c] (gt_starts T))%bool.
+  destruct (assume_of st && dna_mem [a; b; c] (gt_starts T))%bool.
   - unfold translate.
     destruct (mapM (codon_aa T) (codons x')) as [got|];
-      destruct (osum (gT T tr assume) 1 (codons x')) as [x|];
+      destruct (osum (gT T tr st) 1 (codons x')) as [x|];
       cbn [option_map]; try contradiction; try exact I.
-    cbn [List.length List.seq map combine indices_where].
-    destruct (tbad ("M"%char, nth_error tr 0)).
-    + rewrite zq_cons, H. reflexivity.
-    + rewrite H. ring.
+    destruct (decl_of st [a; b; c]);
+    cbn [List.length List.seq map combine indices_where];
+    (destruct (tbad ("M"%char, nth_error tr 0)); [rewrite zq_cons, H; reflexivity | rewrite H; ring]).
   - unfold translate. rewrite codons_cons3. cbn [mapM].
     destruct (codon_aa T [a; b; c]) as [a0|]; [|exact I].
     destruct (mapM (codon_aa T) (codons x')) as [got|];
-      destruct (osum (gT T tr assume) 1 (codons x')) as [x|];
+      destruct (osum (gT T tr st) 1 (codons x')) as [x|];
       try contradiction; try exact I.
+    destruct (decl_of st [a; b; c]);
     cbn [List.length List.seq map combine indices_where].
-    destruct (tbad (a0, nth_error tr 0)).
-    + rewrite zq_cons, H. reflexivity.
-    + rewrite H. ring.
+    + destruct (tbad ("M"%char, nth_error tr 0)); [rewrite zq_cons, H; reflexivity | rewrite H; ring].
+    + destruct (tbad (a0, nth_error tr 0)); [rewrite zq_cons, H; reflexivity | rewrite H; ring].
 Qed.
 
 Lemma three_cons : forall x : dna, 3 <= zlen x -> exists a b c x', x = a :: b :: c :: x'.
@@ -957,18 +965,18 @@ Qed.
 
 Lemma bridge_trans : forall T l tr st t, 3 <= zlen (extract l t) ->
   ev_rel (evaluate (STranslation T l tr st) t)
-         (osum (gT T tr (assume_of st)) 0 (codons (extract l t))).
+         (osum (gT T tr st) 0 (codons (extract l t))).
 Proof.
   intros T l tr st t H. apply ev_rel_score. rewrite eval_translation_score.
   destruct (three_cons _ H) as [a [b [c [x' E]]]]. rewrite E. apply bridge_trans_aux.
 Qed.
 
-Lemma gT_nonpos : forall T tr assume i c q, gT T tr assume i c = Some q -> (q <= 0)%Q.
+Lemma gT_nonpos : forall T tr st i c q, gT T tr st i c = Some q -> (q <= 0)%Q.
 Proof.
-  intros T tr assume i c q H. unfold gT in H.
-  destruct (if (Nat.eqb i 0 && (assume && dna_mem c (gt_starts T)))%bool
+  intros T tr st i c q H. unfold gT in H.
+  destruct (if (Nat.eqb i 0 && (assume_of st && dna_mem c (gt_starts T)))%bool
             then Some "M"%char else codon_aa T c) as [a|]; [|discriminate].
-  injection H as <-. destruct (tbad (a, nth_error tr i)).
+  injection H as <-. destruct (tbad _).
   - change 0%Q with (inject_Z 0). unfold zq. rewrite <- Zle_Qle. lia.
   - apply Qle_refl.
 Qed.
@@ -1034,7 +1042,7 @@ Proof.
       { destruct tr as [|x tr]; [reflexivity|]. unfold loc_len, zlen in Hlo. cbn [List.length] in Hlo. lia. }
       subst tr. change (pyslice (@nil ascii) 0 1) with (@nil ascii) in Hloc.
       destruct Hin as [H0 [H1 [H2 H3]]].
-      apply (same_laws _ _ w s s' (trans_score T [] [] (assume_of st)) Hloc);
+      apply (same_laws _ _ w s s' (trans_score T [] [] st) Hloc);
         rewrite eval_translation_score; unfold nl'; rewrite ?extract_strand_norm;
         rewrite extract_empty by lia; reflexivity.
     + assert (H3ec : 3 * ec <= loc_len l) by (apply Hne; destruct Hin as [_ [H1 _]]; lia).
@@ -1046,7 +1054,7 @@ Proof.
       set (n := Z.to_nat sc) in *. set (m := Z.to_nat (ec - sc)) in *.
       set (tr' := firstn m (skipn n tr)) in *.
       set (st' := if sc =? 0 then st else StartNone) in *.
-      destruct (gen_laws _ _ w s s' (gT T tr (assume_of st)) (gT T tr' (assume_of st')) P M M' S Hloc HMl)
+      destruct (gen_laws _ _ w s s' (gT T tr st) (gT T tr' st') P M M' S Hloc HMl)
         as [Hd Hp].
       * rewrite <- HC. apply bridge_trans. rewrite Z1. unfold loc_len in *. lia.
       * rewrite <- HC'. apply bridge_trans. rewrite Z2. unfold loc_len in *. lia.
@@ -1059,7 +1067,7 @@ Proof.
         -- replace n with 0%nat by (unfold n; lia). reflexivity.
         -- replace (Nat.eqb (n + i) 0) with false
              by (symmetry; apply Nat.eqb_neq; unfold n; lia).
-           cbn [assume_of andb]. rewrite andb_false_r. reflexivity.
+           cbn [assume_of decl_of andb]. rewrite !andb_false_r. reflexivity.
       * split; [exact Hd|apply Hp, gT_nonpos].
   - apply none_laws.
     + unfold localized; cbn [localized_raw]; rewrite Hcw; reflexivity.
